@@ -39,6 +39,13 @@ pub fn battery() -> Value {
     );
     let want: Type<MetaForm> = Type::new(p(), vec![TypeParameter::new("B", None)], TypeDefComposite::new(vec![Field::new(None, meta_type::<bool>(), Some("bool"), vec![]), Field::new(None, meta_type::<[u8; 4]>(), None, d(&["g"]))]), vec!["d1", "d2"]);
     check("tuple struct", got == want);
+    // every setter of the path-less state before path(..): nothing set early may be lost
+    let got = Type::builder().type_params(vec![TypeParameter::new("X", Some(meta_type::<u16>())), TypeParameter::new("Y", None)]).docs_always(&["early 1", "early 2"]).path(p()).composite(Fields::unit());
+    check("params and docs before path (composite)", got == Type::new(p(), vec![TypeParameter::new("X", Some(meta_type::<u16>())), TypeParameter::new("Y", None)], TypeDefComposite::new(Vec::<Field>::new()), vec!["early 1", "early 2"]));
+    let got = Type::builder().docs_always(&["early"]).type_params(vec![TypeParameter::new("Z", None)]).path(p()).variant(Variants::new().variant_unit("U", 1));
+    check("params and docs before path (variant)", got == Type::new(p(), vec![TypeParameter::new("Z", None)], TypeDefVariant::new(vec![Variant::new("U", vec![], 1, vec![])]), vec!["early"]));
+    let got = Type::builder().path(p()).docs_always(&["late"]).type_params(vec![TypeParameter::new("Z", None)]).composite(Fields::unit());
+    check("params and docs after path", got == Type::new(p(), vec![TypeParameter::new("Z", None)], TypeDefComposite::new(Vec::<Field>::new()), vec!["late"]));
     check("unit struct", Type::builder().path(p()).composite(Fields::unit()) == Type::new(p(), vec![], TypeDefComposite::new(Vec::<Field>::new()), vec![]));
     // enum: indices, discriminant, unit variants, fields set twice, docs
     let got = Type::builder().path(p()).variant(
